@@ -148,6 +148,46 @@ impl Property for C09Prop {
             o => return fail("C09:literal", format!("sequence literal `{seq_text}` gave {}", o.short())),
         };
         match op {
+            "history" => {
+                // strings built at run time one after the other (each dropped before the next is made): the
+                // length and the negative index of each are its own, whatever was measured before it
+                let parts: Vec<(String, String)> = case["parts"]
+                    .as_array()
+                    .map(|a| a.iter().map(|p| (p[0].as_str().unwrap_or("").to_string(), p[1].as_str().unwrap_or("").to_string())).collect())
+                    .unwrap_or_default();
+                let filler = "g(\"p\", \"q\"); ".repeat(case["filler"].as_u64().unwrap_or(0) as usize);
+                let mut expected = vec![];
+                for (a, b) in &parts {
+                    let whole = format!("{a}{b}");
+                    expected.push(json!(whole.chars().count()));
+                    expected.push(json!(whole.chars().last().map(String::from).unwrap_or_default()));
+                    expected.push(json!(whole.chars().next().map(String::from).unwrap_or_default()));
+                }
+                let lits: Vec<(String, String)> = parts.iter().map(|(a, b)| (lit::to_text(&json!(a)), lit::to_text(&json!(b)))).collect();
+                let text = if case["form"].as_u64().unwrap_or(0) == 0 {
+                    let calls: Vec<String> = lits.iter().enumerate().map(|(k, (a, b))| format!("r{k} := f({a}, {b}); {filler}")).collect();
+                    let sum: Vec<String> = (0..lits.len()).map(|k| format!("r{k}")).collect();
+                    format!(
+                        "g := (a: string, b: string) -> string {{ return a + b; }}; f := (a: string, b: string) -> [int|string] {{ s := a + b; return [std.len(s), s[-1], s[0 - std.len(s)]]; }}; {} {}",
+                        calls.join(" "),
+                        sum.join(" + ")
+                    )
+                } else {
+                    let pairs: Vec<String> = lits.iter().map(|(a, b)| format!("({a}, {b})")).collect();
+                    format!(
+                        "g := (a: string, b: string) -> string {{ return a + b; }}; out := mut [int|string] []; for p in [{}]~ {{ s := p.0 + p.1; out += [std.len(s), s[-1], s[0 - std.len(s)]]; {filler}}}; *out",
+                        pairs.join(", ")
+                    )
+                };
+                stats.eval();
+                stats.nontrivial(&key);
+                stats.label("history of run-time strings");
+                let o = run::run_text(&text, true);
+                if let Err(why) = compare(&o, &Ok(Json::Array(expected)), false) {
+                    return fail("C09:history", format!("`{text}`: {why}"));
+                }
+                Verdict::Pass
+            }
             "len" => {
                 stats.eval();
                 stats.nontrivial(&key);
@@ -374,6 +414,18 @@ impl Property for C09Prop {
                 if let Err(why) = compare(&o, &Ok(expected.clone()), true) {
                     return fail("C09:slice:folded", format!("`{text}`: {why}"));
                 }
+                // a sequence of the same kind as s: the slice of an array of T is an array of T, whichever
+                // elements it selects
+                let same_kind = |o: &Outcome| -> Option<String> {
+                    use simplesl::variable::Typed;
+                    match o {
+                        Outcome::Value(v) if v.as_type() != seq_var.as_type() => Some(format!("the slice is a {}, the sequence a {}", v.as_type(), seq_var.as_type())),
+                        _ => None,
+                    }
+                };
+                if let Some(why) = same_kind(&o) {
+                    return fail("C09:slice:kind", format!("`{text}`: {why}"));
+                }
                 // run-time route: sequence and bounds are arguments
                 let mut params = vec![format!("s: {param_ty}")];
                 let mut args = vec![seq_var.clone()];
@@ -405,6 +457,9 @@ impl Property for C09Prop {
                 };
                 if let Err(why) = compare(&o, &Ok(expected.clone()), false) {
                     return fail("C09:slice:runtime", format!("`{ftext}` on {shown}: {why}"));
+                }
+                if let Some(why) = same_kind(&o) {
+                    return fail("C09:slice:kind", format!("`{ftext}` on {shown}: {why}"));
                 }
                 // a parameter that may be a string or an array
                 stats.eval();
@@ -576,6 +631,30 @@ pub fn run(session: &Session) -> i32 {
                     cases.push(json!({"seq": seq, "op": "slice", "a": a, "b": b, "c": c, "colon2": !c.is_null()}));
                 }
                 cases.push(json!({"seq": seq, "op": "slice", "a": a, "b": b, "c": null, "colon2": true}));
+            }
+        }
+    }
+    {
+        // histories of strings with the same number of bytes and different numbers of scalars
+        let classes: [&[&str]; 4] = [&["ab", "é", "xy"], &["abc", "aé", "éa", "€", "xyz", "ßq"], &["abcd", "éé", "a€", "𝄞", "aéb", "€a"], &["abcdef", "€€", "ééé", "𝄞é", "aé€"]];
+        for class in classes {
+            for x in class {
+                for y in class {
+                    if x == y {
+                        continue;
+                    }
+                    for filler in 0..4 {
+                        for form in 0..2 {
+                            // each string split after its first scalar, and taken whole
+                            let split = |s: &str| {
+                                let k = s.chars().next().map(char::len_utf8).unwrap_or(0);
+                                json!([s[..k], s[k..]])
+                            };
+                            let whole = |s: &str| json!([s, ""]);
+                            cases.push(json!({"seq": "", "op": "history", "parts": [split(x), split(y), split(x), whole(y), whole(x), split(y)], "filler": filler, "form": form}));
+                        }
+                    }
+                }
             }
         }
     }
